@@ -637,6 +637,7 @@ def gen_impl(case, llm):
 
         def spy(filename, content, *a, **k):
             seen["src"] = content
+            seen["calls"] = seen.get("calls", 0) + 1
             r = orig(filename, content, *a, **k)
             seen["flows"] = [f.get("id") for f in r.get("flows", [])]
             return r
@@ -657,6 +658,10 @@ def gen_impl(case, llm):
         obs["flow_id"] = fid
         obs["src"] = seen.get("src")
         obs["parses_flow"] = seen.get("flows") == [fid]
+        # the parser's observed behaviour, for the try/except model: ids it returned (None: it raised / did not return)
+        obs["parse_flows"] = seen.get("flows") if seen.get("calls") == 1 else None
+        if not all(isinstance(x, str) for x in (obs["parse_flows"] or [])):
+            obs["parse_flows"] = None
         return obs
     # ---- Colang 2.x
     import nemoguardrails.actions.v2_x.generation as G2
@@ -770,7 +775,10 @@ def model_requests(case, obs):
         if case["task"] == "ms_next_step":
             reqs.append({"m": "C17.ms", "s": case["s"], "parser": obs.get("parser", "none"), "parses": obs["parses"]})
         if case["task"] == "ms_start_flow" and obs.get("src") is not None:
-            reqs.append({"m": "C17.msflow", "flow_id": obs["flow_id"], "body": case["s"]})
+            rq = {"m": "C17.msflow", "flow_id": obs["flow_id"], "body": case["s"], "next_raised": "err" in obs["start_flow"] and obs["start_flow"]["err"] != "Hang" and obs.get("parse_flows") == [obs["flow_id"]]}
+            if obs.get("parse_flows") is not None:
+                rq["flows"] = obs["parse_flows"]
+            reqs.append(rq)
         return reqs
     if k == "botmsg":
         ctx = []
@@ -832,7 +840,12 @@ def compare(case, obs, mouts):
                 fallback = r["ok"] == [enc("BotIntent:general response")]
                 if fallback == bool(obs["parses_flow"]) and not (obs["parses_flow"] and fallback):
                     return f"_process_start_flow: parses_flow={obs['parses_flow']} but result {r['ok']}"
-        obs = {kk: vv for kk, vv in obs.items() if kk not in ("from_instructions", "from_name", "continuation", "from_nld", "value_v2", "user_intent_v2", "intent_and_action", "ms", "start_flow", "parses", "src", "flow_id", "parses_flow", "name", "last_prompt_line")}
+            # try/except structure (processStartFlowE): the model is driven with the parser's observed behaviour
+            if obs.get("src") is not None and r.get("err") != "Hang" and len(mouts) > 2 and "res" in mouts[2]:
+                real = "raised" if "err" in r else ("fallback" if r["ok"] == [enc("BotIntent:general response")] else "next")
+                if mouts[2]["res"] != real and not (real == "fallback" and mouts[2]["res"] == "next" and obs.get("parse_flows") == [obs["flow_id"]]):
+                    return f"_process_start_flow try/except: parser behaviour {obs.get('parse_flows')!r} (None = raised), implementation {real}, model {mouts[2]['res']}"
+        obs = {kk: vv for kk, vv in obs.items() if kk not in ("from_instructions", "from_name", "continuation", "from_nld", "value_v2", "user_intent_v2", "intent_and_action", "ms", "start_flow", "parses", "src", "flow_id", "parses_flow", "parse_flows", "name", "last_prompt_line")}
     if k in ("fn", "act"):
         for key, v in obs.items():
             if key in ("parser", "nonascii"):
@@ -993,8 +1006,10 @@ def oracle(case, obs):
             q = _quoted_part(text)
             prev = _content_of(mode, obs["turns"][t - 1]["reply"])[1] if "reply" in obs["turns"][t - 1] else None
             if q is not None and isinstance(prev, str) and prev != "":
-                tails = {prev} | {prev[i + 1:] for i, ch in enumerate(prev) if ch == "\n"}
-                if q not in tails:
+                # every bot utterance goes through the documented cleaning `\\n` -> newline (not template / variable syntax): compare modulo it
+                prev_c, q_c = prev.replace("\\n", "\n"), q.replace("\\n", "\n")
+                tails = {prev_c} | {prev_c[i + 1:] for i, ch in enumerate(prev_c) if ch == "\n"}
+                if q_c not in tails:
                     return f"rewritten:turn {t}: the predefined message quotes the previous bot message, but not literally: quoted {q[:160]!r}, previous reply {prev[:160]!r}"
     return None
 
@@ -1005,6 +1020,8 @@ def signature(case, obs, msg):
         return (msg or "").split(":")[0] + ":" + k if msg else None
     mode = case["mode"]
     cls = (msg or "").split(":")[0]
+    if cls in ("escape", "hang") and mode == "v2_quote":
+        mode = "v2_value"  # the same GenerateValueAction conversation family: one class of failing inputs
     if cls in ("escape", "hang"):
         for rec in obs["turns"]:
             if rec.get("hang") or "raised" in rec:
